@@ -21,7 +21,8 @@ ValuesOK(s, v, u) ==       \* the flags / preferences / primary mark reported ar
   LET e == EffSelf(s, u) IN
   e.kind # "cert" \/ v.eff[u] = 0 \/ (v.eff_tag[u] = s.ledger[v.eff[u]].tag /\ v.primary[u] = s.ledger[v.eff[u]].prim)
 C15(s, v) ==
-  IF SetOf(v.uids) # Present(s) THEN "C15.removed"
+  IF "export_ok" \in DOMAIN v /\ ~v.export_ok THEN "C15.export"          \* the key no longer serialises to a sequence of packets
+  ELSE IF SetOf(v.uids) # Present(s) THEN "C15.removed"
   ELSE IF SetOf(v.subs) # SetOf(s.subs) THEN "C15.twin"
   ELSE IF ~v.verify_all THEN "C15.selfsigs-verify"
   ELSE IF \E u \in Present(s) : ~EffOK(s, v, u) THEN "C15.effective"
